@@ -18,8 +18,16 @@
      deep-converted to [tree], nil entries dropped) and the host-call log, and resource_error is
      one of Timeout / Stackoverflow / CallStackOverflow / OutOfMemory (possibly inside a
      TaskFailure): refinement up to resource exhaustion, the resource side being what C03 / C04 /
-     C05 state.  [PUnspec] results are outside the claim.  Until that proof exists the claim is
-     carried by the differential check C01Check (the real compiler + VM against eval_program). *)
+     C05 state.  [PUnspec] results are outside the claim.
+
+   compile_correct is PROVED FOR FOUR NESTED FRAGMENTS of the language (second half of this file:
+   C01_compile_correct_f1 / _f2 / _f3 / _f4, C01_fragments_well_scoped), against the merged models
+   Compiler.compile, C15Link.to_vm, Vm.run and RefSem.eval_program: programs that consist of `main`
+   alone, over integer / nil globals, with arithmetic, comparison and boolean operators, global
+   assignment, IfTrue / IfFalse / IfElse, Composite and While, nested at will (the while-language); the
+   resource side is explicit (hypotheses on expression depth and budget).  For everything else
+   (reals, locals, Repeat / ForEach, calls, tables, closures, natives) the claim is
+   carried by the differential check C01Check (the real compiler + VM against eval_program). *)
 From Coq Require Import List NArith ZArith Bool Arith String Ascii.
 Import ListNotations.
 From Cao Require Import CardAst RefSem RefScope RefSemProofs.
@@ -287,3 +295,302 @@ Example C01_R5_unset_global_is_VarNotFound_repaired :
   | _ => None
   end = Some (KErr EVarNotFound, [(s "g", TrInt 1)], []).
 Proof. vm_compute. reflexivity. Qed.
+
+(* ==== the simulation theorem, proved for a fragment ====
+   `compile_correct` (top of this file) is proved for the programs of fragment F1
+   (C01SimDefs.in_f1): one module without submodules and imports whose only function is `main`,
+   without parameters; every card of main is  SetGlobalVar g e  (g non-empty)  or a Comment, and e is
+   built from ScalarInt (in i64), ScalarNil, ReadVar of a global (non-empty name without '.'),
+   Add Sub Mul Less LessOrEq Equals NotEquals And Or Xor and Not.  Reading a global that was never
+   assigned is inside the fragment (both sides: the error VarNotFound, the globals assigned so far).
+   Outside: Div and ScalarFloat (reals: the VM model is generic in the float instance, RefSem uses
+   SpecFloat), every other card kind, locals, control flow, calls (fragments F2, F3: not proved).
+
+   Hypotheses, all decidable: the program is in F1; every expression
+   fits the value stack (depth_ok: nesting depth + 1 < 256, otherwise the VM reports Stackoverflow:
+   the resource side of compile_correct); the compiler returned a program B with fewer than 2^32
+   variable ids (next_var is a wrapping u32); the budget covers one dispatch per instruction of
+   main, Exit included, plus the one the loop keeps in reserve (needed_f1).
+   Conclusion: same outcome kind, and the host reads the same globals by name - for every name
+   that does not collide with a name of the program (no_collision), assigned or not.  (The VM and the
+   compiled program know a global by the 32-bit FNV handle of its name, the language by its name.
+   Since ce07816 the compiler refuses a program in which two global names share their handle -
+   Compiler.name_checked - so `compile M = COk B` implies that the names of the program are
+   collision-free; the earlier hypothesis handles_inj is now derived, C01SimComp.named_inj.) *)
+From Cao Require C01SimDefs C01SimF1 Compiler CompilerProofs Vm C15Link.
+
+Theorem C01_compile_correct_f1 :
+  forall (F : Vm.fops) (bld : Vm.build) (M : module) (B : Compiler.compiled) (fuel : nat) (host : list str)
+         (o : obs) (budget : nat),
+    C01SimDefs.in_f1 M = true ->
+    C01SimDefs.depth_ok (C01SimDefs.main_cards M) = true ->
+    Compiler.compile M CompilerProofs.default_options = Compiler.COk B ->
+    (N.of_nat (List.length (Compiler.p_ids B)) < Bits.two32)%N ->
+    eval_program fuel M host = PObs o ->
+    C01SimDefs.needed_f1 M <= budget ->
+    let r := Vm.run F bld budget (C15Link.to_vm B) Vm.fresh_state in
+    C01SimDefs.vm_kind (fst r) = Some (ob_kind o) /\
+    forall n, C01SimDefs.no_collision (C01SimDefs.main_names (C01SimDefs.main_cards M)) n ->
+      option_map C01SimDefs.vm_tree (Vm.read_var_by_name (C15Link.to_vm B) (snd r) n) = assoc n (ob_globals o).
+Proof. exact C01SimF1.compile_correct_f1. Qed.
+Print Assumptions C01_compile_correct_f1.
+
+(* an instance: every hypothesis holds of this program, and both sides, computed independently
+   (the compiler model, then the VM model on its output; the reference semantics), give what the
+   theorem says - here the run ends in VarNotFound after three assignments *)
+Definition f1_example : module :=
+  prog [("main", fn [] [CSetGlobalVar (s "a") (CBin BAdd (CScalarInt 2) (CScalarInt 3));
+                        CComment (s "a comment");
+                        CSetGlobalVar (s "b") (CBin BMul (CReadVar (s "a"))
+                                                 (CBin BLess (CReadVar (s "a")) (CScalarInt 10)));
+                        CSetGlobalVar (s "c") (CUn UNot CScalarNil);
+                        CSetGlobalVar (s "d") (CBin BSub (CScalarInt 1) (CReadVar (s "nope")));
+                        CSetGlobalVar (s "e") (CScalarInt 1)])].
+Definition no_floats : Vm.fops :=
+  Vm.mkFops (fun _ _ => 0%N) (fun _ _ => 0%N) (fun _ _ => 0%N) (fun _ _ => 0%N) (fun _ _ => None)
+            (fun _ => 0%N) (fun _ => 0%Z).
+Example C01_compile_correct_f1_instance :
+  match Compiler.compile f1_example CompilerProofs.default_options, eval_program 200 f1_example [] with
+  | Compiler.COk B, PObs o =>
+      C01SimDefs.in_f1 f1_example = true /\
+      C01SimDefs.handles_inj (C01SimDefs.main_names (C01SimDefs.main_cards f1_example)) = true /\
+      C01SimDefs.depth_ok (C01SimDefs.main_cards f1_example) = true /\
+      (N.of_nat (List.length (Compiler.p_ids B)) <? Bits.two32)%N = true /\
+      C01SimDefs.needed_f1 f1_example = 21 /\
+      (ob_kind o, ob_globals o) = (KErr EVarNotFound, [(s "a", TrInt 5); (s "b", TrInt 5); (s "c", TrInt 1)]) /\
+      let r := Vm.run no_floats Vm.Debug 21 (C15Link.to_vm B) Vm.fresh_state in
+      C01SimDefs.vm_kind (fst r) = Some (ob_kind o) /\
+      map (fun n => option_map C01SimDefs.vm_tree (Vm.read_var_by_name (C15Link.to_vm B) (snd r) n))
+          [s "a"; s "b"; s "c"; s "d"; s "e"; s "nope"]
+      = map (fun n => assoc n (ob_globals o)) [s "a"; s "b"; s "c"; s "d"; s "e"; s "nope"]
+  | _, _ => False
+  end.
+Proof. vm_compute. repeat split; reflexivity. Qed.
+
+(* ... and a run that succeeds, with i64 wrap-around, nil as an operand and a reassignment *)
+Definition f1_example_ok : module :=
+  prog [("main", fn [] [CSetGlobalVar (s "big") (CBin BAdd (CScalarInt 9223372036854775807) (CScalarInt 1));
+                        CSetGlobalVar (s "n") (CBin BAdd CScalarNil CScalarNil);
+                        CSetGlobalVar (s "m") (CBin BMul (CScalarInt 7) (CReadVar (s "n")));
+                        CSetGlobalVar (s "big") (CBin BXor (CReadVar (s "big")) (CBin BEquals (CReadVar (s "n")) CScalarNil))])].
+Example C01_compile_correct_f1_instance_ok :
+  match Compiler.compile f1_example_ok CompilerProofs.default_options, eval_program 200 f1_example_ok [] with
+  | Compiler.COk B, PObs o =>
+      C01SimDefs.in_f1 f1_example_ok = true /\
+      C01SimDefs.handles_inj (C01SimDefs.main_names (C01SimDefs.main_cards f1_example_ok)) = true /\
+      C01SimDefs.depth_ok (C01SimDefs.main_cards f1_example_ok) = true /\
+      (N.of_nat (List.length (Compiler.p_ids B)) <? Bits.two32)%N = true /\
+      Nat.leb (C01SimDefs.needed_f1 f1_example_ok) 40 = true /\
+      (ob_kind o, ob_globals o) = (KOk, [(s "big", TrInt 0); (s "n", TrNil); (s "m", TrInt 0)]) /\
+      let r := Vm.run no_floats Vm.Release 40 (C15Link.to_vm B) Vm.fresh_state in
+      C01SimDefs.vm_kind (fst r) = Some (ob_kind o) /\
+      map (fun n => option_map C01SimDefs.vm_tree (Vm.read_var_by_name (C15Link.to_vm B) (snd r) n))
+          [s "big"; s "n"; s "m"; s "other"]
+      = map (fun n => assoc n (ob_globals o)) [s "big"; s "n"; s "m"; s "other"]
+  | _, _ => False
+  end.
+Proof. vm_compute. repeat split; reflexivity. Qed.
+
+(* ==== fragment F2a: F1 plus conditionals ====
+   statements of main:  SetGlobalVar g e | Comment | IfTrue e s | IfFalse e s | IfElse e s s |
+   Composite [s; ...], with e an expression of F1 and s again such statements (C01SimDefs2.in_f2).  The forward jumps of the
+   compiled conditionals carry absolute byte addresses written by back-patching; the extra hypothesis
+   is that the bytecode is shorter than 2^31 bytes (a jump operand is an i32; the debug build of the VM
+   asserts it is not negative).  A run dispatches at most every instruction of main once, so the same
+   budget bound as in F1 suffices (needed_f2).  Not covered: locals, loops, calls. *)
+From Cao Require C01SimDefs2 C01SimF2.
+
+Theorem C01_compile_correct_f2 :
+  forall (F : Vm.fops) (bld : Vm.build) (M : module) (B : Compiler.compiled) (fuel : nat) (host : list str)
+         (o : obs) (budget : nat),
+    C01SimDefs2.in_f2 M = true ->
+    C01SimDefs2.depth_ok2 (C01SimDefs.main_cards M) = true ->
+    Compiler.compile M CompilerProofs.default_options = Compiler.COk B ->
+    (N.of_nat (List.length (Compiler.p_ids B)) < Bits.two32)%N ->
+    (N.of_nat (List.length (Compiler.p_bytecode B)) < 2147483648)%N ->
+    eval_program fuel M host = PObs o ->
+    C01SimDefs2.needed_f2 M <= budget ->
+    let r := Vm.run F bld budget (C15Link.to_vm B) Vm.fresh_state in
+    C01SimDefs.vm_kind (fst r) = Some (ob_kind o) /\
+    forall n, C01SimDefs.no_collision (C01SimDefs2.main_names2 (C01SimDefs.main_cards M)) n ->
+      option_map C01SimDefs.vm_tree (Vm.read_var_by_name (C15Link.to_vm B) (snd r) n) = assoc n (ob_globals o).
+Proof. exact C01SimF2.compile_correct_f2. Qed.
+Print Assumptions C01_compile_correct_f2.
+
+(* an instance with nested conditionals, every branch kind taken and skipped *)
+Definition f2_example : module :=
+  prog [("main", fn [] [CSetGlobalVar (s "x") (CScalarInt 7);
+                        CBin BIfTrue (CBin BLess (CReadVar (s "x")) (CScalarInt 10))
+                             (CTri TIfElse (CBin BEquals (CReadVar (s "x")) (CScalarInt 7))
+                                   (CSetGlobalVar (s "y") (CScalarInt 1))
+                                   (CSetGlobalVar (s "y") (CScalarInt 2)));
+                        CBin BIfFalse (CReadVar (s "y")) (CSetGlobalVar (s "z") (CScalarInt 3));
+                        CTri TIfElse CScalarNil
+                             (CSetGlobalVar (s "w") (CScalarInt 4))
+                             (CBin BIfFalse CScalarNil (CSetGlobalVar (s "w") (CBin BMul (CReadVar (s "x")) (CReadVar (s "y")))));
+                        CBin BIfTrue (CScalarInt 0) (CSetGlobalVar (s "never") (CReadVar (s "unset")))])].
+Example C01_compile_correct_f2_instance :
+  match Compiler.compile f2_example CompilerProofs.default_options, eval_program 200 f2_example [] with
+  | Compiler.COk B, PObs o =>
+      C01SimDefs2.in_f2 f2_example = true /\
+      C01SimDefs.handles_inj (C01SimDefs2.main_names2 (C01SimDefs.main_cards f2_example)) = true /\
+      C01SimDefs2.depth_ok2 (C01SimDefs.main_cards f2_example) = true /\
+      (N.of_nat (List.length (Compiler.p_ids B)) <? Bits.two32)%N = true /\
+      (N.of_nat (List.length (Compiler.p_bytecode B)) <? 2147483648)%N = true /\
+      Nat.leb (C01SimDefs2.needed_f2 f2_example) 60 = true /\
+      (ob_kind o, ob_globals o) = (KOk, [(s "x", TrInt 7); (s "y", TrInt 1); (s "w", TrInt 7)]) /\
+      let r := Vm.run no_floats Vm.Debug 60 (C15Link.to_vm B) Vm.fresh_state in
+      C01SimDefs.vm_kind (fst r) = Some (ob_kind o) /\
+      map (fun n => option_map C01SimDefs.vm_tree (Vm.read_var_by_name (C15Link.to_vm B) (snd r) n))
+          [s "x"; s "y"; s "z"; s "w"; s "never"; s "unset"]
+      = map (fun n => assoc n (ob_globals o)) [s "x"; s "y"; s "z"; s "w"; s "never"; s "unset"]
+  | _, _ => False
+  end.
+Proof. vm_compute. repeat split; reflexivity. Qed.
+
+(* ==== fragment F3w: F2a plus While loops at the top level of main ====
+   cards of main: a statement of F2a, or  While e s  with e an expression of F1 and s a statement of
+   F2a (C01SimDefs3.in_f3).  Runs are no longer bounded by the program text, so the theorem has the
+   shape of compile_correct itself: there is a budget N0 from which on the run of the compiled program
+   has the outcome kind and the globals the reference semantics gives (a smaller budget ends in
+   Timeout, the resource side).  A program whose reference evaluation does not finish within [fuel]
+   (eval_program = PFuel) is outside the claim, as in compile_correct. *)
+From Cao Require C01SimDefs3 C01SimF3.
+
+Theorem C01_compile_correct_f3 :
+  forall (F : Vm.fops) (bld : Vm.build) (M : module) (B : Compiler.compiled) (fuel : nat) (host : list str) (o : obs),
+    C01SimDefs3.in_f3 M = true ->
+    C01SimDefs3.depth_ok3 (C01SimDefs.main_cards M) = true ->
+    Compiler.compile M CompilerProofs.default_options = Compiler.COk B ->
+    (N.of_nat (List.length (Compiler.p_ids B)) < Bits.two32)%N ->
+    (N.of_nat (List.length (Compiler.p_bytecode B)) < 2147483648)%N ->
+    eval_program fuel M host = PObs o ->
+    exists N0 : nat, forall budget : nat, N0 <= budget ->
+      let r := Vm.run F bld budget (C15Link.to_vm B) Vm.fresh_state in
+      C01SimDefs.vm_kind (fst r) = Some (ob_kind o) /\
+      forall n, C01SimDefs.no_collision (C01SimDefs3.main_names3 (C01SimDefs.main_cards M)) n ->
+        option_map C01SimDefs.vm_tree (Vm.read_var_by_name (C15Link.to_vm B) (snd r) n) = assoc n (ob_globals o).
+Proof. exact C01SimF3.compile_correct_f3. Qed.
+Print Assumptions C01_compile_correct_f3.
+
+(* an instance: a loop that triples x until it passes 1000, a loop whose body is a conditional, a loop
+   that is never entered; a loop with a Composite body;
+   235 dispatches are needed, so budget 236 is the smallest that works *)
+Definition f3_example : module :=
+  prog [("main", fn [] [CSetGlobalVar (s "x") (CScalarInt 1);
+                        CBin BWhile (CBin BLess (CReadVar (s "x")) (CScalarInt 1000))
+                          (CSetGlobalVar (s "x") (CBin BMul (CReadVar (s "x")) (CScalarInt 3)));
+                        CSetGlobalVar (s "y") (CScalarInt 0);
+                        CBin BWhile (CBin BNotEquals (CReadVar (s "y")) (CScalarInt 7))
+                          (CTri TIfElse (CBin BLess (CReadVar (s "y")) (CScalarInt 4))
+                             (CSetGlobalVar (s "y") (CBin BAdd (CReadVar (s "y")) (CScalarInt 2)))
+                             (CSetGlobalVar (s "y") (CBin BAdd (CReadVar (s "y")) (CScalarInt 3))));
+                        CBin BWhile CScalarNil (CSetGlobalVar (s "never") (CScalarInt 1));
+                        (* the loop of simple_while_test, counting down from 10 and summing *)
+                        CSetGlobalVar (s "i") (CScalarInt 10);
+                        CSetGlobalVar (s "sum") (CScalarInt 0);
+                        CBin BWhile (CReadVar (s "i"))
+                          (CComposite (s "body")
+                             [CSetGlobalVar (s "sum") (CBin BAdd (CReadVar (s "sum")) (CReadVar (s "i")));
+                              CSetGlobalVar (s "i") (CBin BSub (CReadVar (s "i")) (CScalarInt 1))])])].
+Example C01_compile_correct_f3_instance :
+  match Compiler.compile f3_example CompilerProofs.default_options, eval_program 300 f3_example [] with
+  | Compiler.COk B, PObs o =>
+      C01SimDefs3.in_f3 f3_example = true /\
+      C01SimDefs.handles_inj (C01SimDefs3.main_names3 (C01SimDefs.main_cards f3_example)) = true /\
+      C01SimDefs3.depth_ok3 (C01SimDefs.main_cards f3_example) = true /\
+      (N.of_nat (List.length (Compiler.p_ids B)) <? Bits.two32)%N = true /\
+      (N.of_nat (List.length (Compiler.p_bytecode B)) <? 2147483648)%N = true /\
+      (ob_kind o, ob_globals o) = (KOk, [(s "x", TrInt 2187); (s "y", TrInt 7); (s "i", TrInt 0); (s "sum", TrInt 55)]) /\
+      (let r := Vm.run no_floats Vm.Debug 400 (C15Link.to_vm B) Vm.fresh_state in
+       C01SimDefs.vm_kind (fst r) = Some (ob_kind o) /\
+       map (fun n => option_map C01SimDefs.vm_tree (Vm.read_var_by_name (C15Link.to_vm B) (snd r) n))
+           [s "x"; s "y"; s "never"; s "i"; s "sum"]
+       = map (fun n => assoc n (ob_globals o)) [s "x"; s "y"; s "never"; s "i"; s "sum"]) /\
+      (* the budget matters: one unit too few is a Timeout *)
+      fst (Vm.run no_floats Vm.Debug 236 (C15Link.to_vm B) Vm.fresh_state) = Vm.OOk /\
+      C01SimDefs.vm_kind (fst (Vm.run no_floats Vm.Debug 235 (C15Link.to_vm B) Vm.fresh_state)) = Some (KErr (EOther 9))
+  | _, _ => False
+  end.
+Proof. vm_compute. repeat split; reflexivity. Qed.
+
+(* the instances lie in the class the property quantifies over, and the fragments are nested *)
+Example C01_fragment_instances_well_scoped :
+  well_scoped f1_example = true /\ well_scoped f1_example_ok = true /\
+  well_scoped f2_example = true /\ well_scoped f3_example = true /\
+  C01SimDefs2.in_f2 f1_example = true /\ C01SimDefs3.in_f3 f2_example = true /\
+  C01SimDefs.in_f1 f2_example = false /\ C01SimDefs2.in_f2 f3_example = false.
+Proof. vm_compute. repeat split; reflexivity. Qed.
+
+(* ==== fragment F4: the while-language over integer / nil globals ====
+   statements:  SetGlobalVar g e | Comment | IfTrue e s | IfFalse e s | IfElse e s s | While e s |
+   Composite [s; ...], nested at will, e an expression of F1; main is a list of statements
+   (C01SimDefs4.in_f4).  This contains F1, F2a and F3w; same hypotheses and same shape as F3w. *)
+From Cao Require C01SimDefs4 C01SimF4.
+
+Theorem C01_compile_correct_f4 :
+  forall (F : Vm.fops) (bld : Vm.build) (M : module) (B : Compiler.compiled) (fuel : nat) (host : list str) (o : obs),
+    C01SimDefs4.in_f4 M = true ->
+    C01SimDefs4.depth_ok4 (C01SimDefs.main_cards M) = true ->
+    Compiler.compile M CompilerProofs.default_options = Compiler.COk B ->
+    (N.of_nat (List.length (Compiler.p_ids B)) < Bits.two32)%N ->
+    (N.of_nat (List.length (Compiler.p_bytecode B)) < 2147483648)%N ->
+    eval_program fuel M host = PObs o ->
+    exists N0 : nat, forall budget : nat, N0 <= budget ->
+      let r := Vm.run F bld budget (C15Link.to_vm B) Vm.fresh_state in
+      C01SimDefs.vm_kind (fst r) = Some (ob_kind o) /\
+      forall n, C01SimDefs.no_collision (C01SimDefs4.main_names4 (C01SimDefs.main_cards M)) n ->
+        option_map C01SimDefs.vm_tree (Vm.read_var_by_name (C15Link.to_vm B) (snd r) n) = assoc n (ob_globals o).
+Proof. exact C01SimF4.compile_correct_f4. Qed.
+Print Assumptions C01_compile_correct_f4.
+
+(* an instance with nested loops: the primes below 12 are counted by trial division with repeated
+   subtraction (the language of the fragment has no division); a loop inside a conditional inside a loop *)
+Definition f4_example : module :=
+  prog [("main", fn []
+    [CSetGlobalVar (s "count") (CScalarInt 0);
+     CSetGlobalVar (s "n") (CScalarInt 2);
+     CBin BWhile (CBin BLess (CReadVar (s "n")) (CScalarInt 12))
+       (CComposite (s "")
+          [CSetGlobalVar (s "prime") (CScalarInt 1);
+           CSetGlobalVar (s "d") (CScalarInt 2);
+           CBin BWhile (CBin BLess (CBin BMul (CReadVar (s "d")) (CReadVar (s "d"))) (CBin BAdd (CReadVar (s "n")) (CScalarInt 1)))
+             (CComposite (s "")
+                [(* r := n mod d by repeated subtraction *)
+                 CSetGlobalVar (s "r") (CReadVar (s "n"));
+                 CBin BWhile (CBin BLessOrEq (CReadVar (s "d")) (CReadVar (s "r")))
+                   (CSetGlobalVar (s "r") (CBin BSub (CReadVar (s "r")) (CReadVar (s "d"))));
+                 CBin BIfFalse (CReadVar (s "r")) (CSetGlobalVar (s "prime") (CScalarInt 0));
+                 CSetGlobalVar (s "d") (CBin BAdd (CReadVar (s "d")) (CScalarInt 1))]);
+           CBin BIfTrue (CReadVar (s "prime"))
+             (CSetGlobalVar (s "count") (CBin BAdd (CReadVar (s "count")) (CScalarInt 1)));
+           CSetGlobalVar (s "n") (CBin BAdd (CReadVar (s "n")) (CScalarInt 1))])])].
+Example C01_compile_correct_f4_instance :
+  match Compiler.compile f4_example CompilerProofs.default_options, eval_program 1000 f4_example [] with
+  | Compiler.COk B, PObs o =>
+      C01SimDefs4.in_f4 f4_example = true /\ C01SimDefs3.in_f3 f4_example = false /\
+      C01SimDefs.handles_inj (C01SimDefs4.main_names4 (C01SimDefs.main_cards f4_example)) = true /\
+      C01SimDefs4.depth_ok4 (C01SimDefs.main_cards f4_example) = true /\
+      (N.of_nat (List.length (Compiler.p_ids B)) <? Bits.two32)%N = true /\
+      (N.of_nat (List.length (Compiler.p_bytecode B)) <? 2147483648)%N = true /\
+      (ob_kind o, assoc (s "count") (ob_globals o)) = (KOk, Some (TrInt 5)) /\
+      let r := Vm.run no_floats Vm.Debug 3000 (C15Link.to_vm B) Vm.fresh_state in
+      C01SimDefs.vm_kind (fst r) = Some (ob_kind o) /\
+      map (fun n => option_map C01SimDefs.vm_tree (Vm.read_var_by_name (C15Link.to_vm B) (snd r) n))
+          [s "count"; s "n"; s "prime"; s "d"; s "r"; s "x"]
+      = map (fun n => assoc n (ob_globals o)) [s "count"; s "n"; s "prime"; s "d"; s "r"; s "x"]
+  | _, _ => False
+  end.
+Proof. vm_compute. repeat split; reflexivity. Qed.
+
+(* the four fragments are nested, and every program of them is in the class property C01 quantifies
+   over: the theorems above are instances of compile_correct, not statements about other programs *)
+From Cao Require C01SimScope.
+Theorem C01_fragments_well_scoped :
+  forall M : module,
+    (C01SimDefs.in_f1 M = true -> C01SimDefs2.in_f2 M = true) /\
+    (C01SimDefs2.in_f2 M = true -> C01SimDefs3.in_f3 M = true) /\
+    (C01SimDefs3.in_f3 M = true -> C01SimDefs4.in_f4 M = true) /\
+    (C01SimDefs4.in_f4 M = true -> well_scoped M = true).
+Proof. exact C01SimScope.fragments_well_scoped. Qed.
+Print Assumptions C01_fragments_well_scoped.
